@@ -325,6 +325,11 @@ def e09_after_dummy(tree, pts, ins, pick):
                            {"tag": "dummy", "type": "char", "value": "1"}]))
         return "created:" + p.placement
     p = pick(c)
+    if p.lex and pick([0, 1, 2]) == 0:
+        # the dummy is directly followed by <break/> (which must itself be refused) and then more
+        p.lst.insert(p.idx, {"tag": "break"})
+        p.lst.insert(p.idx + 1, {"tag": "field", "name": _fresh(_all_names(p), "zaft"), "type": "char"})
+        return "break_then_field:" + p.placement
     follower = pick(["field", "dummy", "chunked", "switchless"])
     if follower == "field" or follower == "switchless":
         p.lst.insert(p.idx, _plain_field(p))
@@ -425,10 +430,13 @@ def e13_bad_enum(tree, pts, ins, pick):
                  "field_enum_string", "field_abc", "override_on_int", "override_on_struct", "override_self"])
     if mode == "text":
         e["values"].append({"name": "Zzz", "ord": 0, "text": pick(["abc", "1x", "", "0x10"])})
-    elif mode == "dup_ordinal":
-        e["values"].append({"name": "Zzz", "ord": e["values"][0]["ord"]})
-    elif mode == "dup_name":
-        e["values"].append({"name": e["values"][0]["name"], "ord": max(v["ord"] for v in e["values"]) + 1})
+    elif mode in ("dup_ordinal", "dup_name"):
+        with_values = [(dd, x) for (dd, x) in enums if x["values"]]
+        d, e = pick(with_values)          # PacketFamily / PacketAction always have values
+        if mode == "dup_ordinal":
+            e["values"].append({"name": "Zzz", "ord": e["values"][0]["ord"]})
+        else:
+            e["values"].append({"name": e["values"][0]["name"], "ord": max(v["ord"] for v in e["values"]) + 1})
     elif mode == "non_numeric_type":
         e["type"] = pick(["string", "bool", "blob", "Nonexistent"])
     elif mode == "self_type":
